@@ -127,6 +127,9 @@ def write_replay(pid: str, oid: str, key: str, body: str) -> str:
         + "# finding key: " + key.replace("\n", " ") + "\n"
         + "# Run with: /verif/.venv/bin/python <this file>   (exit 1 = violation reproduces)\n"
         + f"import sys\nsys.path.insert(0, {REPO!r})\nsys.path.insert(0, {VERIF!r})\n"
+        + "def _crash(t, v, tb):\n    import traceback, os\n    traceback.print_exception(t, v, tb)\n"
+        + "    print('REPLAY CRASHED (exit 2: not a reproduction)')\n    sys.stdout.flush(); os._exit(2)\n"
+        + "sys.excepthook = _crash\n"
     )
     with open(path, "w") as fh:
         fh.write(header + body)
